@@ -107,7 +107,12 @@ WLate == /\ Is("late") /\ Step
 ByWorker(c) == c # 0 /\ cw[c] # 0
 
 (* C02/C04/C06 at the moment the worker (or the actor, eagerly) starts a terminal broker call *)
+(* Under a forced cancellation the worker rejects whatever its cancelled tasks were handling; it  *)
+(* cannot know whether an interrupted broker call took effect, so this extra reject is judged by  *)
+(* its effect on the broker state (base contract + the `stop' clause), not counted here.          *)
 DispoOk(i, op, m) ==
+  \/ op = "reject" /\ wc.forced
+  \/
     /\ nact[i] = 0
     /\ CASE ph[i] = "run" -> TRUE                                            \* eager response
          [] ph[i] = "ended" ->
